@@ -348,7 +348,8 @@ KvOpenStep ==
                       ELSE IF Ev.meta[k] < 0 THEN [KB[k] EXCEPT !.ver = Ev.meta[k]] ELSE KB[k])
               ELSE IF k \in kvTreeOnly /\ Ev.meta[k] > 0 THEN [KB[k] EXCEPT !.ver = Ev.meta[k]]
               ELSE KB[k]]
-  /\ kvTreeOnly' = {}
+  \* a tree-only version that this restart preserved (tree dump loaded) is still tree-only: a later rebuild may lose it
+  /\ kvTreeOnly' = {k \in kvTreeOnly : k \in DOMAIN Ev.meta /\ Ev.meta[k] = KB[k].ver}
   /\ kvCtab' = CtabOf(Ev) /\ UNCHANGED kvUnprot
 
 TrOpen ==
@@ -366,7 +367,7 @@ TrOpen ==
                           ELSE IF Ev.meta[k] < 0 THEN [ref[k] EXCEPT !.ver = Ev.meta[k]] ELSE ref[k])
                   ELSE IF k \in gh.treeOnly /\ Ev.meta[k] > 0 THEN [ref[k] EXCEPT !.ver = Ev.meta[k]]
                   ELSE ref[k]]
-            /\ gh' = [gh EXCEPT !.treeOnly = {}]
+            /\ gh' = [gh EXCEPT !.treeOnly = {k \in @ : k \in DOMAIN Ev.meta /\ Ev.meta[k] = ref[k].ver}]
             /\ UNCHANGED <<conf, gc, lock, pc, loc, recs>>
             /\ Settle /\ obs' = [e |-> Ev, pre |-> NoKv, aux |-> NoAux]
        ELSE KvSame /\ Stuck("open-while-up")
